@@ -139,7 +139,7 @@ def run_case(case, items):
     names = sorted({it['hp'] for it in its})
     allv = set()
     for it in its:
-        allv |= set(it['vars'])
+        allv |= set(it.get('vars') or [])
     hpnames = sorted(allv - {'t', 'n_it', 'n_agents', 'p'} | set(names) | set(ORACLE_BOUNDS.get(case['opt'], ())))
     res['hp0'] = {n: getattr(opt, n) for n in hpnames}
     mode = case.get('mode', 'natural')
@@ -176,6 +176,8 @@ def writes_before(item, j, n_it):
         return 0
     if j == n_it + 1:
         return n_it
+    if item.get('tree') is None:          # untranslated write: position relative to the hook unknown
+        return j if j > 1 else 0
     return j if item['phase'] == 'pre' else j - 1
 
 
@@ -191,6 +193,8 @@ def check_case(case, items, stats):
     hp0 = r['hp0']
 
     def rec(key, what, found_input=True, **extra):
+        if key in [x['key'] for x in recs]:
+            return                  # one record per key and case
         d = {'key': key, 'what': what, 'found_input': found_input,
              'replay': dict({'kind': 'c15_sched', 'case': case, 'key': key}, **extra)}
         recs.append(d)
@@ -201,7 +205,8 @@ def check_case(case, items, stats):
         hit = None
         for it in its:
             for fname, func, line in ex['frames']:
-                if fname.replace('\\', '/').endswith(it['file']) and (line == it['line'] or func == it['hp']):
+                if fname.replace('\\', '/').endswith(it['file']) and (it['line'] <= line <= it.get('end_line', it['line'])
+                                                                        or func == it['hp']):
                     hit = it
             if hit:
                 break
@@ -225,8 +230,8 @@ def check_case(case, items, stats):
         seq = [o[hp] for o in obs]
         stats['observations'] += len(seq)
         kind = ORACLE.get((case['opt'], hp))
-        # ---- correspondence with the regenerated term
-        for j in range(len(seq) - 1):
+        # ---- correspondence with the regenerated term (skipped for a write the translator rejected)
+        for j in range(len(seq) - 1 if it.get('tree') is not None else 0):
             k0, k1 = writes_before(it, j, n_it), writes_before(it, j + 1, n_it)
             a, b = seq[j], seq[j + 1]
             stats['comparisons'] += 1
@@ -284,7 +289,7 @@ def check_case(case, items, stats):
                     continue
                 nwr = writes_before(it, j, n_it)
                 sk = special_key(case['opt'], hp, hp0)
-                if sk and (fv != fv or lo > hi):
+                if sk and nwr > 0:
                     key = sk
                 elif lo > hi:
                     key = '%s:%s>%s' % (case['opt'], kind[1], kind[2])
@@ -297,7 +302,6 @@ def check_case(case, items, stats):
                 rec(key, '%s.%s = %r at observation %d (%s; %d writes so far) is outside [%s, %s] = [%r, %r]; n_iterations = %d, '
                     'n_agents = %d, %s' % (case['opt'], hp, v, j, obs_name(j, n_it), nwr, kind[1], kind[2], lo, hi, n_it,
                                            case['n_agents'], fmt_hp(hp0)), observed=[repr(x) for x in seq])
-                break
         else:
             if not kind[1](hp0):
                 stats['premise_false'] += 1
@@ -325,6 +329,9 @@ def check_case(case, items, stats):
 def special_key(opt, hp, hp0):
     if opt == 'IHS' and hp == 'bw' and hp0.get('bw_min') == 0:
         return 'IHS:bw_min=0'
+    if opt == 'IHS' and hp == 'bw' and 0 < hp0.get('bw_min', 1) <= hp0.get('bw_max', 1) \
+            and hp0['bw_min'] / hp0['bw_max'] == 0.0:
+        return 'IHS:bw_min/bw_max-underflows-to-0'       # float range only: the real-valued schedule is defined
     return None
 
 
@@ -355,7 +362,7 @@ def corners(opt, rnd, quick):
                 ({'w_min': 0.8, 'w_max': 0.9}, [], 'initial-w-below'),
                 ({'w': 5.0}, [], 'initial-w-above'),
                 ({'w_min': 0.95}, [], 'inverted')]
-        for i in range(4 if quick else 40):
+        for i in range(10 if quick else 60):
             a = round(rnd.uniform(0, 2), rnd.choice([1, 3, 17]))
             b = a + round(rnd.uniform(0, 2), rnd.choice([1, 3, 17]))
             out.append(({'w_min': a, 'w_max': b, 'w': a}, [], 'random'))
@@ -371,7 +378,7 @@ def corners(opt, rnd, quick):
                 ({'bw_min': 2, 'bw_max': 3}, [], 'initial-bw-below'),
                 ({'bw_min': 20}, [], 'inverted-bw'),
                 ({}, [['PAR_max', 0.5], ['PAR_min', 0.9]], 'inverted-PAR')]
-        for i in range(3 if quick else 30):
+        for i in range(8 if quick else 40):
             a = round(rnd.uniform(0, 1), 3)
             b = round(rnd.uniform(a, 1), 3)
             c = round(10 ** rnd.uniform(-6, 2), 6)
@@ -381,17 +388,17 @@ def corners(opt, rnd, quick):
         out += [({}, [], 'default'), ({'beta': 1}, [], 'beta=1'), ({'beta': 0}, [], 'beta=0'), ({'T': 0}, [], 'T=0'),
                 ({'T': 1e-300, 'beta': 1e-200}, [], 'underflow'), ({'T': 1e300, 'beta': 0.5}, [], 'huge'),
                 ({'T': 5, 'beta': 1.0}, [], 'float-1'), ({'T': 3.5, 'beta': 1.5}, [], 'beta>1 (no claim)')]
-        for i in range(3 if quick else 30):
+        for i in range(8 if quick else 40):
             out.append(({'T': round(10 ** rnd.uniform(-3, 3), 4), 'beta': round(rnd.uniform(0, 1), rnd.choice([2, 6, 17]))}, [], 'random'))
     elif opt == 'FA':
         out += [({}, [], 'default'), ({'alpha': 0}, [], 'alpha=0'), ({'alpha': 1e-300}, [], 'tiny'),
                 ({'alpha': 7.0}, [], 'large'), ({'alpha': 1e300}, [], 'huge')]
-        for i in range(2 if quick else 20):
+        for i in range(6 if quick else 30):
             out.append(({'alpha': round(10 ** rnd.uniform(-3, 2), 5)}, [], 'random'))
     elif opt == 'WCA':
         out += [({}, [], 'default'), ({'d_max': 0}, [], 'd_max=0'), ({'d_max': 1e-300}, [], 'tiny'),
                 ({'d_max': 5e-324}, [], 'subnormal'), ({'d_max': 2.5}, [], 'large'), ({'d_max': 1e300}, [], 'huge')]
-        for i in range(2 if quick else 20):
+        for i in range(6 if quick else 30):
             out.append(({'d_max': round(10 ** rnd.uniform(-4, 1), 6)}, [], 'random'))
     else:
         out.append(({}, [], 'default'))
@@ -404,7 +411,8 @@ def matrix(items, quick):
     n_its = [1, 2, 3, 7] if quick else [1, 2, 3, 7, 25, 100]
     cases = []
     for opt in opts:
-        modes = ['natural', 'all', 'none'] if any('p' in it['vars'] for it in items if it['opt'] == opt) else ['natural']
+        modes = ['natural', 'all', 'none'] if opt == 'AIWPSO' or any('p' in (it.get('vars') or []) for it in items if it['opt'] == opt) \
+            else ['natural']
         pops = [4] if quick else [4, 7]
         if opt == 'AIWPSO':
             pops = [1, 4] if quick else [1, 3, 4, 7]
